@@ -186,7 +186,7 @@ Proof.
   { unfold before_head_anything_else. rewrite wp_bind. unfold insert_phantom.
     eapply (wp_insert_element s1); [apply keeps_refl; exact I1 | exact L1 |].
     intros h s2 K2 _ Kn En. rewrite wp_bind, wp_modify, wp_ret. pose proof K2 as [I2 S2].
-    split; [|intro C; exact C]. split; [|discriminate].
+    split; [|apply res_ok_reprocess]. split; [|discriminate].
     eapply TInv_core_eq; [|apply (TInv_head_pushed s2 h); [exact I2 | exact (keeps_late _ _ K2 L1) | rewrite (st_mode _ _ S2); exact NS1 | exact Kn | exact En]].
     repeat split. }
   arm_cases k Eb.
@@ -226,7 +226,7 @@ Lemma reprocess_post s0 s m t :
   early_mode m = false -> saving_mode m = false -> (head_needed m = true -> head_elem s <> None) ->
   step_post t (Reprocess m t) s.
 Proof.
-  intros K L NS Em Sm Hm. pose proof K as [I S]. split; [|intro C; exact C]. split; [|apply nonsaving_not_text; exact Sm].
+  intros K L NS Em Sm Hm. pose proof K as [I S]. split; [|apply res_ok_reprocess]. split; [|apply nonsaving_not_text; exact Sm].
   apply (keeps_set_mode s0 s m); [exact K | eapply keeps_late; eassumption | rewrite (st_mode _ _ S); exact NS | exact Em | exact Sm | exact Hm].
 Qed.
 
@@ -450,7 +450,7 @@ Proof.
       intros e s4 K4 _ _ _. rewrite wp_bind, wp_get, wp_bind, wp_unwrap.
       destruct (leave_saving_state s1 s4 K4 L1) as (om & Eo & So & Io); [rewrite Em1; reflexivity | apply Pend; exact K4 |].
       exists om. split; [exact Eo|]. rewrite wp_bind, wp_modify, wp_ret.
-      split; [split; [exact Io | apply nonsaving_not_text; exact So] | intro C; exact C]. }
+      split; [split; [exact Io | apply nonsaving_not_text; exact So] | apply res_ok_reprocess]. }
     apply wp_current_node_named; [exact (keeps_TInv _ _ K2) | exact L1 |]. intros h V. rewrite wp_bind.
     destruct (html_elem_named_b s2 h (nm "script")).
     + rewrite wp_bind, wp_get, wp_bind, wp_unwrap. exists h. split; [exact V|]. rewrite wp_emit.
@@ -462,7 +462,7 @@ Proof.
     destruct (leave_saving_state s1 s4 K4 L1) as (om & Eo & So & Io); [rewrite Em1; reflexivity | apply Pend; exact K4 |].
     exists om. split; [exact Eo|]. rewrite wp_bind, wp_modify. unfold set_mode_m. rewrite wp_bind, wp_modify.
     assert (C : is_chars t = false) by exact (head_tag_not_chars _ _ text_facts Hm).
-    destruct (is_n (tname t) "script"); rewrite wp_ret; (split; [exact Io | apply res_ok_nonchars; exact C]).
+    destruct (is_n (tname t) "script"); rewrite wp_ret; (split; [exact Io | apply res_ok_nonchars; [exact C | exact Logic.I]]).
   - (* unreachable: the tokenizer only delivers characters, end tags and EOF in this mode *)
     exfalso. specialize (TO Em).
     pose proof (Hn 0 ltac:(lia)) as H0. pose proof (Hn 1 ltac:(lia)) as H1. pose proof (Hn 2 ltac:(lia)) as H2.
@@ -517,7 +517,7 @@ Proof.
     { intros s3 K3. rewrite wp_bind, wp_get, wp_bind, wp_unwrap.
       destruct (leave_saving_state s2 s3 K3 L2) as (om & Eo & So & Io); [change (saving_mode (mode s1) = true); rewrite Em1; reflexivity | pose proof K3 as [_ S3]; rewrite (st_pending _ _ S3); reflexivity |].
       exists om. split; [exact Eo|]. rewrite wp_bind, wp_modify, wp_ret.
-      split; [split; [exact Io | apply nonsaving_not_text; exact So] | intro C; exact C]. }
+      split; [split; [exact Io | apply nonsaving_not_text; exact So] | apply res_ok_reprocess]. }
     rewrite wp_bind. destruct (pending_contains_nonspace pending).
     + rewrite wp_bind. apply wp_probe. rewrite wp_bind, wp_parse_error.
       eapply wp_mono.
@@ -648,7 +648,7 @@ Proof.
   - rewrite wp_bind, wp_get, wp_bind, wp_assert. split.
     + rewrite (pending_nil_of_nonsaving s I NS). reflexivity.
     + rewrite wp_bind, wp_modify, wp_ret.
-      split; [split; [apply TInv_enter_table_text; assumption | discriminate] | intro C; exact C].
+      split; [split; [apply TInv_enter_table_text; assumption | discriminate] | apply res_ok_reprocess].
   - rewrite wp_bind, wp_parse_error.
     eapply wp_mono; [apply foster_parent_in_body_ok; [eapply TInv_core_eq; [apply core_eq_set_out | exact I] | exact L | left; exact NS | exact Sc]|].
     intros r s' [P _]. exact P.
@@ -774,7 +774,7 @@ Proof.
     destruct (is_type_hidden g).
     + rewrite wp_bind. unfold insert_and_pop_element_for.
       eapply (wp_insert_element_std s1); [exact K2 | exact L1 | exact N1 | exact N2 |].
-      intros h s3 K3 _ _ _ _. rewrite wp_ret. split; [exact (keeps_TInv _ _ K3) | apply res_ok_nonchars; reflexivity].
+      intros h s3 K3 _ _ _ _. rewrite wp_ret. split; [exact (keeps_TInv _ _ K3) | apply res_ok_nonchars; [reflexivity | exact Logic.I]].
     + apply Foster. exact K2.
   - (* 12 <form> *)
     destruct (head_named_prop _ _ _ F12 Hm) as (g & -> & Nf). apply is_n_eq in Nf. cbn [tk_tag].
@@ -853,7 +853,7 @@ Proof.
   - (* <col> *)
     destruct (head_safe _ _ F4 Hm) as (g & -> & N0 & N1 & N2). cbn [tk_tag]. rewrite wp_bind. unfold insert_and_pop_element_for.
     eapply (wp_insert_element_std s1); [exact K1 | exact L1 | exact N1 | exact N2 |].
-    intros h s3 K3 _ _ _ _. rewrite wp_ret. split; [exact (keeps_TInv _ _ K3) | apply res_ok_nonchars; reflexivity].
+    intros h s3 K3 _ _ _ _. rewrite wp_ret. split; [exact (keeps_TInv _ _ K3) | apply res_ok_nonchars; [reflexivity | exact Logic.I]].
   - (* </colgroup> *)
     rewrite wp_bind. apply wp_current_node_named; [exact I1 | exact L1 |]. intros h V.
     destruct (html_elem_named_b s1 h (nm "colgroup")) eqn:Nh.
@@ -1118,7 +1118,7 @@ Proof.
   - (* <frame> *)
     destruct (head_safe _ _ F6 Hm) as (g & -> & N0 & N1 & N2). cbn [tk_tag]. rewrite wp_bind. unfold insert_and_pop_element_for.
     eapply (wp_insert_element_std s1); [exact K1 | exact L1 | exact N1 | exact N2 |].
-    intros h s3 K3 _ _ _ _. rewrite wp_ret. split; [exact (keeps_TInv _ _ K3) | apply res_ok_nonchars; reflexivity].
+    intros h s3 K3 _ _ _ _. rewrite wp_ret. split; [exact (keeps_TInv _ _ K3) | apply res_ok_nonchars; [reflexivity | exact Logic.I]].
   - apply (in_head_delegated s1 t _ I1 L1 NS1 Sc F7 N7 Hm).
   - rewrite wp_bind, wp_get, wp_bind, wp_when.
     destruct (negb (Nat.eqb (length (open_elems s1)) 1)).
